@@ -82,5 +82,9 @@ def run(ctx):
     ctx.guarded(r, r_varmap)
     r = ctx.rule("R3", "missing variables and too-short argument lists are errors; extras are allowed", 4)
     ctx.guarded(r, SC.r_arg_checks)
+    from .C19 import r1_free_fixed
+
+    r = ctx.rule("R5", "the solver binds every parameter at its tape's own index, fixed ones at their value in every lane", 7)
+    ctx.guarded(r, r1_free_fixed)
     r = ctx.rule("R4", "Transformable for f32 / Interval / Grad are the same homogeneous transform", 7)
     ctx.guarded(r, lambda rule: SC.r_transformable(rule, ("Interval", "Grad", "f32")))
